@@ -22,10 +22,20 @@ SPEC = Spec(
     harnesses=[
         H("witness", "TestVerifC07Witness", None, {"quick": 8, "thorough": 8}),
         H("ptrslice", "TestVerifC07PtrSlice", "drv_c07", {"quick": 12000, "thorough": 100000}),
+        Harness(name="ptrslice-ptrace", module="pdata", pkg="pdata/ptrace", files={"zz_verif_c07_ptrslice_test.go": "c07/ptrslice_ptrace_test.go"},
+                test="TestVerifC07PtrSliceTrace", driver="drv_c07", n={"quick": 3000, "thorough": 40000}),
+        Harness(name="ptrslice-pmetric", module="pdata", pkg="pdata/pmetric", files={"zz_verif_c07_ptrslice_test.go": "c07/ptrslice_pmetric_test.go"},
+                test="TestVerifC07PtrSliceMetric", driver="drv_c07", n={"quick": 3000, "thorough": 40000}),
+        Harness(name="ptrslice-pprofile", module="pdata/pprofile", pkg="pdata/pprofile", files={"zz_verif_c07_ptrslice_test.go": "c07/ptrslice_pprofile_test.go"},
+                test="TestVerifC07PtrSliceProfile", driver="drv_c07", n={"quick": 3000, "thorough": 40000}),
         Harness(name="map", module="pdata", pkg="pdata/pcommon", files={"zz_verif_c07_map_test.go": "c07/map_test.go"},
                 test="TestVerifC07Map", driver="drv_c07", n={"quick": 12000, "thorough": 150000}),
         Harness(name="nest", module="pdata", pkg="pdata/pcommon", files={"zz_verif_c07_nest_test.go": "c07/nest_test.go"},
                 test="TestVerifC07Nest", driver="drv_c07", n={"quick": 6000, "thorough": 80000}),
+        Harness(name="elem-plog", module="pdata", pkg="pdata/plog", files={"zz_verif_c07_elem_test.go": "c07/elem_plog_test.go"},
+                test="TestVerifC07Elem", driver="drv_c07", n={"quick": 3000, "thorough": 40000}),
+        Harness(name="elem-pmetric", module="pdata", pkg="pdata/pmetric", files={"zz_verif_c07_elem_test.go": "c07/elem_pmetric_test.go"},
+                test="TestVerifC07ElemMetric", driver="drv_c07", n={"quick": 3000, "thorough": 40000}),
         Harness(name="prim", module="pdata", pkg="pdata/pcommon", files={"zz_verif_c07_prim_test.go": "c07/prim_test.go"},
                 test="TestVerifC07Prim", driver="drv_c07", n={"quick": 5000, "thorough": 80000}),
         H("tree", "TestVerifC07Tree", None, {"quick": 5000, "thorough": 100000}),
